@@ -38,7 +38,7 @@ static std::vector<double> grid_points(const std::string &fam, size_t n, double 
 static void diffusion_cases(Harness &H) {
   const std::vector<double> DV = {1.0 / 3, 1.0, 2.0};
   const std::vector<std::pair<double, double>> BV = {{0, 10}, {2, -1}, {1, 1}};
-  const std::vector<double> LAM = {0.25, 3.0, 1.0 / 3};
+  const std::vector<double> LAM = {0.25, 3.0, 1.0 / 3, std::ldexp(1.0, -60), std::ldexp(3.0, 40)};  // "a positive constant": also far from 1
   std::vector<size_t> NS = H.thorough() ? std::vector<size_t>{2, 3, 4, 5, 6, 9, 13} : std::vector<size_t>{2, 3, 4, 6, 9};
   for (std::string fam : {"uni", "nonuni"})
     for (size_t n : NS) {
